@@ -219,8 +219,13 @@ pub enum DrawOp {
 }
 
 /// k-th colour of a call with the given seed, as a raw value of `bits` bits.
+/// A hash of (seed, k), deliberately *not* periodic in k: a stream shifted by any amount
+/// (including multiples of 65536) changes the picture. Neighbouring indices collide with
+/// probability 2^-bits only.
 pub fn colour_of(seed: u32, k: u64, bits: u32) -> u32 {
     let mask = (1u64 << bits) - 1;
-    // odd multiplier: injective in k modulo 2^bits
-    (((k.wrapping_mul(40503)).wrapping_add(seed as u64 * 2654435761 + 0x1234)) & mask) as u32
+    let mut z = k.wrapping_add((seed as u64) << 32 | 0x9E37_79B9).wrapping_mul(0x9E37_79B9_7F4A_7C15);
+    z = (z ^ (z >> 30)).wrapping_mul(0xBF58_476D_1CE4_E5B9);
+    z = (z ^ (z >> 27)).wrapping_mul(0x94D0_49BB_1331_11EB);
+    ((z ^ (z >> 31)) & mask) as u32
 }
